@@ -1,0 +1,48 @@
+//! Verification hooks, compiled only with the `verif_hooks` cargo feature.
+//!
+//! These are observation points for external runtime monitors. They do not
+//! change the behaviour of the crate, with one exception that is opt-in at
+//! run time: a *budget* on the number of queue pops `RankCalc::calc` may
+//! perform, which when exceeded panics with [`RANK_CALC_BUDGET_PANIC`] so a
+//! monitor learns about super-polynomial work without waiting for it.
+
+use std::cell::Cell;
+
+/// Panic payload used when the rank calculation pop budget is exceeded.
+pub const RANK_CALC_BUDGET_PANIC: &str = "verif_hooks: rank_calc pop budget exceeded";
+
+thread_local! {
+    static RANK_CALC_POPS: Cell<u64> = const { Cell::new(0) };
+    static RANK_CALC_POP_BUDGET: Cell<Option<u64>> = const { Cell::new(None) };
+}
+
+/// Resets the queue pop counter of the current thread to 0.
+pub fn rank_calc_pops_reset() {
+    RANK_CALC_POPS.with(|pops| pops.set(0));
+}
+
+/// Returns the number of queue pops `RankCalc::calc` has performed on the
+/// current thread since the last reset.
+pub fn rank_calc_pops() -> u64 {
+    RANK_CALC_POPS.with(Cell::get)
+}
+
+/// Sets the maximum number of queue pops allowed on the current thread since
+/// the last reset. `None` means unlimited (the default).
+pub fn set_rank_calc_pop_budget(budget: Option<u64>) {
+    RANK_CALC_POP_BUDGET.with(|b| b.set(budget));
+}
+
+/// Called once per queue pop in `RankCalc::calc`.
+pub(crate) fn rank_calc_pop() {
+    let pops = RANK_CALC_POPS.with(|pops| {
+        let n = pops.get() + 1;
+        pops.set(n);
+        n
+    });
+    if let Some(budget) = RANK_CALC_POP_BUDGET.with(Cell::get) {
+        if pops > budget {
+            panic!("{}", RANK_CALC_BUDGET_PANIC);
+        }
+    }
+}
